@@ -59,7 +59,9 @@ EvPreMilestone ==
         /\ conf' = (conf /\ ok) /\ div' = Note(ok, <<"PreMilestone", t>>)
         \* a milestone has start = end; one that is not pinned by the user sits at its dependency bound,
         \* which cannot be known before its predecessors are placed
-        /\ bad' = bad \cup Flag(E.start = E.end, <<"C06", l, "milestone start#end", t>>)
+        \* (a period the user dated at both ends, not flagged as a milestone, is reported as written)
+        /\ bad' = bad \cup Flag(E.start = E.end \/ (~T(t).milestone /\ T(t).pin >= 0 /\ T(t).pinEnd >= 0 /\ E.start = T(t).pin /\ E.end = T(t).pinEnd),
+                                <<"C06", l, "milestone start#end", t>>)
                       \cup Flag(T(t).pin >= 0 \/ T(t).pinEnd >= 0 \/ AllDeps(t) = {}
                                    \/ (NearestEnd(t) >= 0 /\ E.end = NearestEnd(t)),   \* anchored at a container deadline
                                 <<"C04", l, "unpinned milestone placed before its predecessors", t>>)
@@ -255,6 +257,8 @@ EvLoopEnd ==
   /\ LET ok == ~E.crashed /\ PendingC = {} /\ \A t \in Leafs : ~Ready(t)      \* nothing schedulable was left behind
      IN /\ conf' = (conf /\ ok) /\ div' = Note(ok, <<"LoopEnd", {t \in Leafs : Ready(t)}, "containersNotRolledUp", PendingC>>)
         /\ bad' = bad \cup Flag(~E.crashed, <<"C11", l, "internal error in the scheduling loop", 0>>)
+                      \* giving up is for work that does not fit, loops and bounds beyond the horizon: not while a task can be placed
+                      \cup Flag(E.crashed \/ \A t \in Leafs : ~Ready(t), <<"C11", l, "the loop gave up although a task could be placed (false deadlock)", {t \in Leafs : Ready(t)}>>)
   /\ UNCHANGED <<used, usage, lim, lsec, ts, cur>>
 
 EvWarn ==
